@@ -45,15 +45,15 @@ def extract_overrides(ctx=None):
     """filter methods that Oscar / Jetscape / ParticleObjectStorer override by `raise NotImplementedError` (stdlib ast)"""
     import ast
     if _OVERRIDES_DONE[0]:
-        return
+        return []
     _OVERRIDES_DONE[0] = True
+    unrecognised = []
     for fname, cname, k in (("Oscar.py", "Oscar", "o"), ("Jetscape.py", "Jetscape", "j"), ("ParticleObjectStorer.py", "ParticleObjectStorer", "p")):
         try:
             t = ast.parse(common.read_src(fname))
             c = next(n for n in t.body if isinstance(n, ast.ClassDef) and n.name == cname)
         except Exception as e:
-            if ctx:
-                ctx.brk("translator-broken", f"cannot find class {cname} in {fname}: {e}")
+            unrecognised.append(f"cannot find class {cname} in {fname}: {type(e).__name__}")
             continue
         over = set()
         delegating = {}
@@ -67,13 +67,42 @@ def extract_overrides(ctx=None):
                     pass          # same shape as the BaseStorer wrapper
                 elif _delegating_override(c, fn):
                     delegating.setdefault(cname, []).append(fn.name)   # implemented, behaves as the BaseStorer wrapper
-                elif ctx:
-                    ctx.brk("translator-broken", f"{cname}.{fn.name} overrides a filter method in a shape the model does not know")
+                else:
+                    unrecognised.append(f"{cname}.{fn.name} overrides a filter method in a shape the extractor does not know")
         if ctx and over != NOT_IMPLEMENTED[k]:
             ctx.notes.append(f"NotImplementedError overrides of {cname} changed: now {sorted(over)} (the model takes the table as a parameter)")
         NOT_IMPLEMENTED[k] = over
         if ctx and delegating:
             ctx.cov.setdefault("delegating_overrides", {}).update(delegating)
+    if unrecognised and ctx is None:
+        probe_overrides()
+    return unrecognised
+
+
+def probe_overrides():
+    """the override table obtained from the real classes: a filter method is "not implemented" iff calling it with
+    admissible arguments on a small freshly loaded storer raises NotImplementedError"""
+    import random
+    rng = random.Random(4)
+    srcs = {"p": {"kind": "p", "events": [[{"pdg": 211, "charge": 1, "E": 1.0, "t": 2.0, "z": 0.5, "px": 0.5, "py": 0.0, "pz": 0.5,
+                                            "x": 0.0, "y": 0.0, "ncoll": 1, "status": 1}], []]},
+            "o": gen_file(rng, "o", True), "j": gen_file_with(rng, "j", False)}
+    prog = {"sources": srcs, "steps": []}
+    table, odd = {}, []
+    for k in ("o", "j", "p"):
+        over = set()
+        for name in pmodel.ALL_FILTERS:
+            _, args = pmodel.gen_call(rng, [name])
+            try:
+                s = World(prog).load(k, {})
+                getattr(s, name)(*args)
+            except NotImplementedError:
+                over.add(name)
+            except Exception as e:
+                odd.append(f"{CLSNAME[k]}.{name}: {type(e).__name__}")
+        table[k] = over
+    NOT_IMPLEMENTED.update(table)
+    return table, odd
 
 
 BOOKKEEPING = {"num_events_", "num_output_per_event_", "particle_list_"}
@@ -163,17 +192,17 @@ def translate(ctx):
     """(i) regenerate the filter model from Filter.py (C03's translator: `applyCall` is what the filter methods call);
     (ii) check with `ast` that every filter method of BaseStorer still has the shape the model's `filterStep` mirrors
     (`self.particle_list_ = <same-named Filter.py function>(self.particle_list_, args…)`, recount, `return self`) and
-    that the extract the table of NotImplementedError overrides of Oscar / Jetscape / ParticleObjectStorer; it is handed
+    extract the table of NotImplementedError overrides of Oscar / Jetscape / ParticleObjectStorer; it is handed
     to the driver with every program (the theorems are quantified over the table `impl`)."""
     import ast
     from props import C03
     regions = list(C03.translate(ctx) or [])
     src = common.read_src("BaseStorer.py")
     tree = ast.parse(src)
-    cls = next(n for n in tree.body if isinstance(n, ast.ClassDef) and n.name == "BaseStorer")
+    cls = next((n for n in tree.body if isinstance(n, ast.ClassDef) and n.name == "BaseStorer"), None)
     bad = []
     found = set()
-    for fn in cls.body:
+    for fn in (cls.body if cls is not None else []):
         if not isinstance(fn, ast.FunctionDef) or fn.name not in pmodel.ALL_FILTERS:
             continue
         found.add(fn.name)
@@ -186,13 +215,31 @@ def translate(ctx):
         if not ok:
             bad.append(fn.name)
     missing = set(pmodel.ALL_FILTERS) - found
+    unrecognised = []
     if bad or missing:
-        ctx.brk("translator-broken", f"BaseStorer filter methods no longer have the modelled shape: {sorted(bad)}; missing: {sorted(missing)}")
+        unrecognised.append(f"BaseStorer filter methods do not have the modelled wrapper shape: {sorted(bad)}; not found as methods: {sorted(missing)}")
     _OVERRIDES_DONE[0] = False
-    extract_overrides(ctx)
+    static_table = None
+    unrecognised += extract_overrides(ctx)
+    static_table = {k: set(v) for k, v in NOT_IMPLEMENTED.items()}
+    if unrecognised:
+        # DESIGN 2.1 (i): the extractor cannot re-derive -> not a violation by itself; the correspondence (which calls every
+        # filter method of every class after every step) carries the tie alone, with the thorough case counts
+        ctx.fallback = True
+        ctx.cov["tie"] = "correspondence-only (wrapper shape not recognised: " + "; ".join(unrecognised)[:600] + ")"
+        ctx.notes.append("tie T for the storer wrappers could not be re-derived: " + "; ".join(unrecognised))
+        table, odd = probe_overrides()
+        ctx.notes.append("override table obtained by probing real objects: " +
+                         json.dumps({CLSNAME[k]: sorted(v) for k, v in table.items()}) +
+                         (" (differs from the statically extracted one)" if table != static_table else ""))
+        if odd:
+            ctx.notes.append("probing: calls that raised something else (treated as implemented): " + ", ".join(odd[:10]))
     ctx.cov["notimplemented_overrides"] = {CLSNAME[k]: sorted(v) for k, v in NOT_IMPLEMENTED.items()}
     for name in ("__add__", "particle_list", "_update_num_output_per_event_after_filter"):
-        fn = next(f for f in cls.body if isinstance(f, ast.FunctionDef) and f.name == name)
+        fn = next((f for f in (cls.body if cls is not None else []) if isinstance(f, ast.FunctionDef) and f.name == name), None)
+        if fn is None:
+            ctx.notes.append(f"BaseStorer.{name} not found as a method (tie C decides)")
+            continue
         regions.append({"region": f"BaseStorer.{name}", "sha": common.region_hash(ast.unparse(fn)), "tie": "C (hand-written mirror)"})
     return regions
 
